@@ -46,7 +46,8 @@ pub const PAGE_SAMPLES: &[(&str, &[&str])] = &[
 ];
 
 pub fn gen_strings(rng: &mut Rng, non_ascii: bool) -> String {
-    let base = ["a", "b", "ab", "Zed", "x", "y", "hello world", "A.b_9", "", "b", "a", "zz"];
+    // (the numerals: texts that spell one number in different ways are different texts)
+    let base = ["a", "b", "ab", "Zed", "x", "y", "hello world", "A.b_9", "", "b", "a", "zz", "7", "07", "+7", "0", "-0", "10", "9"];
     let rep = REPERTOIRE.with(|r| r.get());
     let uni: &[&str] = if rep == 3 {
         PAGE_TEXT.with(|t| t.get())
